@@ -111,6 +111,8 @@ func (m c11Model) reaches(def string, target string) bool {
 // apply returns whether the call must be rejected; when accepted the model is updated.
 func (m c11Model) apply(op c11Op, nextStreamID uint64) (reject bool) {
 	switch op.Op {
+	case "restart":
+		return false
 	case "add":
 		typ, ok := c11ValidName(op.Name)
 		if !ok || !c11ValidQuery(op.Arg) {
@@ -141,7 +143,7 @@ func (m c11Model) apply(op c11Op, nextStreamID uint64) (reject bool) {
 		if !ok || !c11ValidQuery(op.Arg) {
 			return true
 		}
-		if strings.HasPrefix(op.Name, "mark/") && !c11IDOnly(op.Arg) {
+		if (strings.HasPrefix(op.Name, "mark/") || strings.HasPrefix(op.Name, "generated/")) && !c11IDOnly(op.Arg) {
 			return true
 		}
 		for _, r := range c11Refs(op.Arg) {
@@ -209,6 +211,8 @@ func c11Call(mgr *Manager, op c11Op) (err error, hung bool) {
 	done := make(chan error, 1)
 	go func() {
 		switch op.Op {
+		case "restart":
+			done <- nil
 		case "add":
 			done <- mgr.AddTag(op.Name, op.Color, op.Arg)
 		case "del":
@@ -300,6 +304,9 @@ func TestC11Standin(t *testing.T) {
 		if rng.Intn(3) != 0 {
 			q = refQuery()
 		}
+		if rng.Intn(12) == 0 {
+			return c11Op{Op: "restart"}
+		}
 		switch rng.Intn(10) {
 		case 0, 1, 2:
 			nn := names[rng.Intn(6)]
@@ -381,6 +388,11 @@ func TestC11Standin(t *testing.T) {
 				trial[n] = &c
 			}
 			reject := trial.apply(op, nextStreamID)
+			if op.Op == "restart" {
+				// the tag table is persisted: a new manager over the same directories must come up with the same graph
+				mgr.Close()
+				mgr = makeManager(t, d)
+			}
 			err, hung := c11Call(mgr, op)
 			evals++
 			if hung {
